@@ -134,6 +134,17 @@ def run_source(which, src, dispose_at, extend, str_items):
         for o in emitted:
             ids.append(0 if o is None else next((j + 1 for j, s_ in enumerate(objs) if s_ is o), -1))
         return res, ids, 0
+    if which == 'pandas':
+        import pandas as pd
+        rows = [tuple(e[1]) for e in src]
+        df = pd.DataFrame(rows, columns=['a', 'b']) if rows else pd.DataFrame({'a': [], 'b': []})
+        seen = []
+        rs.ops.from_pandas(df).pipe(rs.ops.to_pandas()).subscribe(
+            on_next=seen.append, on_error=lambda e: out.append(['e', 1]), on_completed=lambda: out.append(['c']))
+        res = [['n', [list(map(int, r)) for r in f.itertuples(index=False)]] for f in seen] + out
+        if any(list(f.columns) != ['a', 'b'] for f in seen):
+            res.append(['columns-differ'])
+        return res, ids, 0
     if which == 'run':
         try:
             r = rs.run(rs.ops.from_iterable(gen()))
@@ -156,18 +167,60 @@ def run_source(which, src, dispose_at, extend, str_items):
     raise C.MachineryError(which)
 
 
+TREES = {1: {'': (['f1', 'f2'], [])},
+         2: {'': (['f1'], ['a']), 'a': (['f2', 'f3'], [])},
+         3: {'': ([], ['a']), 'a': (['f1'], ['b']), 'a/b': (['f2'], [])},
+         4: {'': (['f1'], ['a', 'b']), 'a': (['f2'], []), 'b': (['f3', 'f4'], [])},
+         5: {'': ([], [])},
+         6: {'': (['f1'], ['a', 'b']), 'a': ([], ['c']), 'a/c': (['f2'], []), 'b': (['f3'], [])}}
+
+
+def run_walk(tree_id):
+    """the real rs.io.walk on the directory tree TreeId of spec/Sources.tla"""
+    import rxsci as rs
+    out = []
+    with C.scratch('rxsci-verif.walk.') as top:
+        for d, (files, dirs) in TREES[tree_id].items():
+            os.makedirs(os.path.join(top, d), exist_ok=True)
+            for f in files:
+                open(os.path.join(top, d, f), 'w').close()
+        rs.io.walk(top).subscribe(on_next=lambda p: out.append(['n', os.path.relpath(p, top).split(os.sep)]),
+                                  on_error=lambda e: out.append(['e', 1]), on_completed=lambda: out.append(['c']))
+    return out
+
+
+def walk_phase():
+    """every order the model allows is printed by TLC; the real walk must be one of them"""
+    bad = total = 0
+    for tid in sorted(TREES):
+        c = dict(Which='walk', Vals={1}, MaxLen=0, Extend=False, StrItems=False, TreeId=tid)
+        r = C.run_tlc('Sources', C.cfg(constants=c, invariants=['WalkStatement', 'EmitBehaviour']), workers=1)
+        if r.violated:
+            print('Sources model violates %s for %s' % (r.violated, c))
+            return None, None
+        allowed = [[list(e) if len(e) == 1 else [e[0], list(e[1])] for e in b[4]] for b in C.extract_printed(r.stdout, 'BEH')]
+        real = run_walk(tid)
+        total += 1
+        if real not in allowed:
+            bad += 1
+            print('EXTRA-MISMATCH walk tree=%d real=%s not among the %d orders of the model' % (tid, real, len(allowed)))
+        print('walk tree %d: %d states, %d allowed orders, real order is %s' % (
+            tid, r.distinct, len(allowed), 'allowed' if real in allowed else 'NOT allowed'))
+    return total, bad
+
+
 def sources_phase():
     """spec/Sources.tla: TLC checks the statements and prints every behaviour; each is replayed"""
     jobs = []
     for which, inv in (('iter', 'IterStatement'), ('deque', 'DequeStatement'), ('cache', 'CacheStatement'),
-                       ('run', 'RunStatement'), ('onsub', 'OnSubStatement')):
+                       ('run', 'RunStatement'), ('onsub', 'OnSubStatement'), ('pandas', 'PandasStatement')):
         variants = [dict(Extend=False, StrItems=False)]
         if which == 'deque':
             variants.append(dict(Extend=True, StrItems=False))
         if which == 'cache':
             variants.append(dict(Extend=False, StrItems=True))
         for v in variants:
-            c = dict(Which=which, Vals={1, 2}, MaxLen=3 if v['Extend'] else 4, **v)
+            c = dict(Which=which, Vals={1, 2}, MaxLen=3 if v['Extend'] or which == 'pandas' else 4, TreeId=1, **v)
             jobs.append((which, c, inv))
     rs_ = C.par([lambda c=c, inv=inv: C.run_tlc('Sources', C.cfg(constants=c, invariants=[inv, 'EmitBehaviour']),
                                                  workers=2) for (_, c, inv) in jobs])
@@ -207,6 +260,11 @@ def main():
         return 2
     total += t2
     bad += b2
+    t3, b3 = walk_phase()
+    if t3 is None:
+        return 2
+    total += t3
+    bad += b3
     jobs = [('wlf', dict(Which='wlf', NChildren=2, Vals={1, 2}, Modulus=0, Sampling=1, MaxEvents=5), ['WlfStatement']),
             ('wlf', dict(Which='wlf', NChildren=1, Vals={1, 2, 3}, Modulus=0, Sampling=1, MaxEvents=5), ['WlfStatement'])]
     for m in (2, 3, 4):
